@@ -189,7 +189,24 @@ class VSA:
                 res = cast_to(res, n["t"])
             return res
         if k == "ConditionalOperator":
-            return norm(self.ev(n["c"][1], env) + self.ev(n["c"][2], env))
+            # `x < C ? x : C` (a clamp): each arm is refined by the outcome of the test that selects it
+            arms = []
+            cn = f.nodes[f.strip(n["c"][0])]
+            for arm, truth in ((n["c"][1], True), (n["c"][2], False)):
+                v = self.ev(arm, env)
+                if cn["k"] == "BinaryOperator" and cn.get("op") in ("<", "<=", ">", ">=", "==", "!=") and len(cn["c"]) == 2:
+                    for x, y, flip in ((cn["c"][0], cn["c"][1], False), (cn["c"][1], cn["c"][0], True)):
+                        c_ = fin.eval_expr(f, y, {})
+                        if c_ is None or q.no_casts(f.r(f.strip(x))) != q.no_casts(f.r(f.strip(arm))) or f.r(x) != f.r(arm):
+                            continue
+                        op = cn["op"]
+                        if flip:
+                            op = {"<": ">", "<=": ">=", ">": "<", ">=": "<=", "==": "==", "!=": "!="}[op]
+                        if not truth:
+                            op = {"<": ">=", "<=": ">", ">": "<=", ">=": "<", "==": "!=", "!=": "=="}[op]
+                        v = _filter(v, op, c_)
+                arms += v
+            return norm(arms)
         r = type_range(n.get("t", ""))
         return r if r is not None else TOP
 
